@@ -401,6 +401,11 @@ def sub_cube(ctx):
             n = int(np.prod(shape))
             data = rng.normal(size=n) * 10.0 ** rng.integers(-30, 30, size=n)
             data[0], data[-1] = 0.0, -1.2345e-99
+            if k % 2 == 0:
+                # three-digit exponents of either sign, negative values not first on their line of six (added after seeded
+                # change C13-J: a field one character wider glues such a number to its neighbour)
+                data[1:6] = [-1.12856e-130, 6.193e-129, -7.5e120, 3.3e101, -9.87e-100]
+                data[8], data[9], data[11] = -2.5e-300, -1e100, -4.4e250
             atnums = np.array([8, 1, 17])
             atcoords = np.round(rng.uniform(-2, 2, (3, 3)), 6)
             pseudo = np.array([6.0, 1.0, 7.0]) if k % 2 else None
